@@ -20,7 +20,9 @@ from ..models import multipart as mpm
 from ..wsgi_peer import WsgiPeer
 
 SITE = [("site/index.html", b"<h1>index</h1>"), ("site/a.txt", b"alpha file\n"), ("site/sub/index.html", b"<h1>sub</h1>"), ("site/sub/x.html", b"<p>x</p>"),
-        ("site/é.txt", b"accent"), ("site/empty.bin", b""), ("site/big.bin", bytes(range(256)) * 40), ("site/about.html", b"<p>about</p>")]
+        ("site/é.txt", b"accent"), ("site/empty.bin", b""), ("site/big.bin", bytes(range(256)) * 40), ("site/about.html", b"<p>about</p>"),
+        # a directory and a page of the same name side by side: /sub is the directory
+        ("site/sub.html", b"<p>page named like the directory</p>")]
 FILES = [("site/a.txt", 11), ("site/big.bin", 10240), ("site/empty.bin", 0)]
 SEGS = ["a", "b", "static", "api", "é", "中", "x.html", "index.html", "sub", "1", "007", "2021-03-07", "123.5", "90478484-0988-45fc-91fe-757d90136892",
         "a.txt", "about", "big.bin", "é.txt", "empty.bin", "100%", "a b", "x"]
@@ -123,6 +125,9 @@ def gen_app(t, depth=0):
         r = recipes.gen_recipe(t, files=FILES)
         if r["kind"] == "file" and r["size"] // r["chunk_size"] > 60:
             r["chunk_size"] = r["size"] // (2 + t.draw(20)) + 1
+        if r["kind"] in ("stream", "sse") and t.draw(5) == 0:
+            # the producer itself fails at its k-th step (k = 0: before anything was produced)
+            r["raise_at"] = t.draw(len(r["chunks"] if r["kind"] == "stream" else r["events"]) + 1)
         return {"t": "resp", "recipe": r}
     if k == "router":
         n = 1 + t.draw(4)
@@ -159,6 +164,19 @@ def has_sse(tree):
         if key in tree and any(has_sse(sub) for _, sub in tree[key]):
             return True
     return "inner" in tree and has_sse(tree["inner"])
+
+
+def sse_recipes(tree):
+    out = []
+    if tree["t"] == "resp" and tree["recipe"]["kind"] == "sse":
+        out.append(tree["recipe"])
+    for key in ("routes", "mounts", "hosts"):
+        if key in tree:
+            for _, sub in tree[key]:
+                out += sse_recipes(sub)
+    if "inner" in tree:
+        out += sse_recipes(tree["inner"])
+    return out
 
 
 def mount_prefixes(tree):
@@ -226,6 +244,14 @@ class C04(Prop):
             if t.draw(2):
                 r2["path"], r2["root_path"] = plan["req"]["path"], plan["req"]["root_path"]
             plan["req2"] = r2
+        # event streams on an exactly reproducible time line: producer gaps that never coincide with a ping deadline and a client that
+        # takes every chunk at once - then the keep-alive comments are part of the body both interfaces must agree on
+        # (not behind a middleware: there the ASGI body passes through a spooled file written in the thread pool, whose latency is the environment's)
+        if has_sse(plan["app"]) and not uses(plan["app"], "mw") and t.draw(2) == 0:
+            plan["timed_sse"] = True
+            plan["lat"] = "fast"
+            for r in sse_recipes(plan["app"]):
+                r["delays"] = [t.choice([0.0, 0.31, 0.43, 0.71, 1.13, 1.37, 2.29]) * r["ping_interval"] for _ in r["events"]]
         # a request whose path repeats the mount prefix (/a/a/x under a mount at /a): only the first occurrence is the mount
         prefixes = mount_prefixes(plan["app"])
         if prefixes and t.draw(4) == 0:
@@ -342,7 +368,8 @@ class C04(Prop):
         if exc is not None:
             if isinstance(exc, HTTPException):
                 return ("http-exception", exc.status_code, sorted((k.lower(), v) for k, v in (exc.headers or {}).items()), exc.content)
-            return ("exception", type(exc).__name__)
+            # ... and what the server had been handed before the exception left the application (None = nothing yet)
+            return ("exception", type(exc).__name__, status)
         if sse:
             body = body.replace(b": ping\n\n", b"")
         return ("response", status, sorted(headers), body)
@@ -365,7 +392,7 @@ class C04(Prop):
             import time as _t
             app = self._app(plan, "wsgi", views, boom, cache, _t.sleep)
             peer.run(app)
-        return self._outcome(peer.status, peer.header_list(), peer.body, peer.exc or peer.close_exc, has_sse(plan["app"])), views
+        return self._outcome(peer.status, peer.header_list(), peer.body, peer.exc or peer.close_exc, has_sse(plan["app"]) and not plan.get("timed_sse")), views
 
     def _app(self, plan, iface, views, boom, cache, sleep=None):
         """The application objects are built once per run and interface and serve every request of the history."""
@@ -403,7 +430,7 @@ class C04(Prop):
             (status, headers, rbody, exc), loop = run_sim(scenario, ctx.sched, ctx, vcap=100000.0, step_cap=500000)
         except (SimDeadlock, SimTimeLimit, SimStepLimit) as e:
             return ("hang", type(e).__name__), views
-        return self._outcome(status, headers, rbody, exc, has_sse(plan["app"])), views
+        return self._outcome(status, headers, rbody, exc, has_sse(plan["app"]) and not plan.get("timed_sse")), views
 
     def execute(self, plan, ctx, variant=None):
         from ..simclock import SimClock, installed
@@ -464,6 +491,11 @@ class C04(Prop):
         if w[0] == "exception":
             if w[1] != a[1]:
                 ctx.violate("C04|" + tag + "exception-type-differs|%s|%s" % (w[1], a[1]), where)
+            elif w[2] != a[2] and not uses(app, "mw"):
+                # (behind @middleware the two stacks differ by design: the ASGI one runs the inner application to completion before it
+                # relays anything, the WSGI one relays lazily - with a failing producer one has started, the other has not; not judged)
+                ctx.violate("C04|" + tag + "response-started-before-exception-on-one-interface-only|wsgi-%s|asgi-%s" % (w[2], a[2]),
+                            "%s left the application; the server had been handed status %r on WSGI, %r on ASGI %s" % (w[1], w[2], a[2], where))
             return
         if w[0] == "http-exception":
             if w[1:] != a[1:]:
